@@ -57,7 +57,7 @@ def drop_to_release(text):
     body = text[m.end() - 1:text.rindex('}')]
     body = body[:body.rindex('}') + 1]
     body = body.replace('self.temporary.', 'temporary.').replace('self.source.', 'self.')
-    return "impl<'b> Tokens<'b>\n{\n\tpub fn release(&mut self, temporary: Tokens<'b>)\n\t" + body + '\n}\n'
+    return "\tpub fn release(&mut self, temporary: Tokens<'b>)\n\t" + body + '\n'
 
 
 def impl_to_free_fn(name):
@@ -69,12 +69,32 @@ def impl_to_free_fn(name):
     return f
 
 
+PBFRAME = ('final(final(%s).nodes)@ == final(old(%s).nodes)@ && final(final(%s).declarations)@ == final(old(%s).declarations)@'
+           ' && final(%s).nodes@.len() == old(%s).nodes@.len(),')
+K = 6   # nodes per token proved sufficient (node budget); the capacity formula of ParseTree::empty must provide it
+
+
+def expand_static_contracts(u):
+    import os
+    src = open(os.path.join(u.verif, 'contracts/u_parse.vc')).read()
+    src = re.sub(r'PBFRAME\((\w+)\)', lambda m: PBFRAME % ((m.group(1),) * 6), src)
+    src = src.replace('NODES_PER_TOKEN()', str(K))
+    out = os.path.join(u.verif, '.work', 'u_parse_static.vc')
+    os.makedirs(os.path.dirname(out), exist_ok=True)
+    open(out, 'w').write(src)
+    u.load_contracts('.work/u_parse_static.vc')
+
+
 def build(u):
-    u.load_contracts('contracts/u_parse.vc')
+    expand_static_contracts(u)
     emit_nodes(u, convert=False)
+    u.include('prelude/usize_minmax.rs')
+    u.include('prelude/parse_strum.rs')
+    u.include('prelude/parse_std.rs')
+    u.include('prelude/slice_count.rs')
     # ---- lexer side (read-only accessors)
     u.emit(LX, 'enum BaseToken')
-    u.raw('pub mod lexer { use super::*; pub use super::BaseToken; pub use super::ValueTypeKeyword;\npub mod tokens { use super::*; use vstd::prelude::*;')
+    u.raw('pub mod lexer { use super::*; pub use super::BaseToken; pub use super::ValueTypeKeyword;\npub mod tokens { use super::*; use vstd::prelude::*; use vstd::std_specs::cmp::{PartialEqSpec, PartialEqSpecImpl};')
     u.emit(LT, 'struct ValueTypeAndPayloadId', pub_fields=True)
     u.emit(LT, 'struct TokenId', pre=lambda t: t.replace('struct TokenId(u32)', 'struct TokenId(pub u32)'))
     u.emit(LT, 'struct PayloadId', pre=lambda t: t.replace('struct PayloadId(u32)', 'struct PayloadId(pub u32)'))
@@ -85,7 +105,7 @@ def build(u):
     u.include('spec/u_parse_lex_spec.rs', kind='spec')
     u.emit(LT, 'impl ValueTypeAndPayloadId', only=['value_type'])
     u.emit(LT, 'impl Tokens #1', only=LEX_TOKENS_FNS, rules=[rules.r20_param_patterns])
-    u.emit(LT, 'impl From<TokenId> for parse_node::TokenId', pre=lambda t: t.replace('parse_node::', ''))
+    u.emit(LT, 'impl From<TokenId> for parse_node::TokenId', pre=lambda t: t.replace('parse_node::', 'crate::'))
     u.emit(LT, 'impl From<TokenId> for usize')
     u.raw('} }\nuse lexer::tokens::Span;')
     # ---- parser types
@@ -99,10 +119,12 @@ def build(u):
     u.emit(PT, 'struct ActiveList', pub_fields=True)
     u.emit(PT, 'struct UnfinishedImpl', pub_fields=True)
     u.emit(CT, 'struct Tokens', pub_fields=True)
+    u.raw('use ParseNode::UnpatchedListItem;\nuse BaseToken::EndOfSource;')
     u.include('spec/u_parse_spec.rs', kind='spec')
     # ---- node buffer (real code)
-    RB = [rules.r13_assert_eq, rules.r19_with_capacity, rules.r21_cmp_minmax, rules.r20_param_patterns]
-    u.emit(PT, 'impl ParseTree #0', rules=RB)
+    RB = [rules.r13_assert_eq, rules.r19_with_capacity, rules.r21_cmp_minmax, rules.r20_param_patterns, rules.r23_push_within_capacity('self.declarations')]
+    u.emit(PT, 'impl ParseTree #0', rules=RB, pre=lambda t: t.replace('tokens: &Tokens,', 'tokens: &lexer::tokens::Tokens,'))
+    u.notes.append('parse_tree.rs imports the lexer Tokens unqualified; in the single-file unit the name is qualified (lexer::tokens::Tokens)')
     u.emit(PT, "impl<'buffer> ParseBuffer<'buffer>", rules=RB)
     # ---- cursor (real code)
     u.emit(CT, "impl<'a> From<&'a lexer::tokens::Tokens> for Tokens<'a>")
@@ -111,11 +133,22 @@ def build(u):
     u.emit(CT, "impl<'a> Tokens<'a> #1")
     src = u.source(CT)
     drop_item = src.find("impl<'a, 'b: 'a> Drop for TokensWithReservation<'a, 'b>")
-    u.raw('//@fn impl Drop for TokensWithReservation :: fn drop (as release) | %s:%d-%d\n%s//@endfn' % (CT, drop_item.lines[0], drop_item.lines[1], drop_to_release(drop_item.text)))
+    rkey = 'impl Drop for TokensWithReservation :: fn drop (as release)'
+    rtext = drop_to_release(drop_item.text)
+    rc = u.contracts.get(rkey)
+    if rc is not None:
+        rc.used = True
+        rtext = u._splice(rkey, rtext, rc)
+    u.fns.append((rkey, CT, drop_item.lines[0], drop_item.lines[1], rc is not None))
+    u.raw("impl<'b> Tokens<'b>\n{\n//@fn %s | %s:%d-%d\n%s\n//@endfn\n}" % (rkey, CT, drop_item.lines[0], drop_item.lines[1], rtext))
     u.rules['R9-release-from-Drop::drop'] += 1
     # ---- the parser
-    R = [rules.r13_assert_eq, r9_reservation]
+    R = [rules.r13_assert_eq, r9_reservation, rules.flatten_paths(['parse_node']), rules.r22_filter_count]
     src = u.source(P)
+    import os
+    stage = os.environ.get('U_PARSE_STAGE', '')
     for it in src.items:
+        if stage == 'B':
+            break
         if it.kind == 'fn' and (it.name.startswith('parse') or it.name == 'starts_declaration'):
             u.emit(P, 'fn ' + it.name, rules=R)
